@@ -1,4 +1,6 @@
-(* StridedInterval.union / least_upper_bound of two intervals = pseudo_join(s, b, smart_join=True).
+(* StridedInterval.pseudo_join(s, b, smart_join), union / least_upper_bound of two intervals = pseudo_join(s, b, True), and
+   least_upper_bound of any number of intervals (the candidate joins of every rotation of the sorted list, the one with the
+   fewest values).
    Hand-written from claripy/backends/backend_vsa/strided_interval.py: pseudo_join, _is_surrounded, _surrounds_member,
    is_top, n_values.  The modular differences are written with mod directly (the translated helpers _modular_sub,
    _wrapped_cardinality, _lex_lte are proved equal to that in Proofs/SISound.v).  Reversed intervals and the uninitialized
@@ -28,14 +30,15 @@ Definition n_values (a : si) : res Z :=
   if stride a =? 0 then Ok 1 else
   do q <- py_floordiv (modN a (ub a - lb a) + 1) (stride a); Ok (q + 1).
 
-Definition si_union (a b : si) : res si :=
+(* pseudo_join(s, b, smart_join) *)
+Definition si_join (smart : bool) (a b : si) : res si :=
   if negb (bits a =? bits b) then Crash PyAssert else
   let w := bits a in
   if bot a then Ok b else if bot b then Ok a else
   if is_integer a && is_integer b then
-    let upper := Z.max (ub a) (ub b) in
-    let lower := Z.min (lb a) (lb b) in
-    mk w (Z.abs (upper - lower)) lower upper
+    let upper := if smart then Z.max (ub a) (ub b) else ub b in
+    let lower := if smart then Z.min (lb a) (lb b) else lb a in
+    mk w (modN a (upper - lower)) lower upper
   else if is_surrounded a b then
     let g0 := if negb (is_integer a) then Z.gcd (stride a) (stride b) else stride b in
     mk w (Z.gcd g0 (modN a (lb a - lb b))) (lb b) (ub b)
@@ -49,8 +52,50 @@ Definition si_union (a b : si) : res si :=
     mk w (Z.gcd (Z.gcd (stride a) (stride b)) (modN a (lb a - lb b))) (lb b) (ub a)
   else
     let g0 := if is_integer a then stride b else if is_integer b then stride a else Z.gcd (stride a) (stride b) in
+    if negb smart then
+      (* the operands are joined in the order given: from a to b; _wrapped_cardinality(lb a, lb b) - 1 = (lb b - lb a) mod 2^w *)
+      mk w (Z.gcd g0 (modN a (lb b - lb a))) (lb a) (ub b)
+    else
     do si1 <- mk w (Z.gcd g0 (modN a (lb a - lb b))) (lb b) (ub a);
     do si2 <- mk w (Z.gcd g0 (modN a (lb b - lb a))) (lb a) (ub b);
     do n1 <- n_values si1;
     do n2 <- n_values si2;
     if n1 <=? n2 then Ok si1 else Ok si2.
+
+(* union / _union / least_upper_bound of two *)
+Definition si_union (a b : si) : res si := si_join true a b.
+
+(* sorted(intervals, key=lambda x: x.lower_bound): a stable sort *)
+Fixpoint insert_lb (x : si) (l : list si) : list si :=
+  match l with
+  | nil => x :: nil
+  | y :: r => if lb x <? lb y then x :: l else y :: insert_lb x r
+  end.
+Definition sort_lb (l : list si) : list si := fold_left (fun acc x => insert_lb x acc) l nil.
+
+(* reduce(lambda x, y: pseudo_join(x, y, False), l) *)
+Definition join_fold (l : list si) : res si :=
+  match l with nil => Crash PyAssert | x :: r => foldM (si_join false) r x end.
+
+(* the candidate with the fewest values; the first one wins a tie (ret.n_values > si.n_values replaces) *)
+Fixpoint pick_least (best : si) (nb : Z) (cands : list si) : res si :=
+  match cands with
+  | nil => Ok best
+  | c :: r => do nc <- n_values c; if nc <? nb then pick_least c nc r else pick_least best nb r
+  end.
+
+(* StridedInterval.least_upper_bound of a list of intervals *)
+Definition si_lub (l : list si) : res si :=
+  match l with
+  | nil => Crash PyAssert
+  | x :: nil => Ok x
+  | x :: y :: nil => if negb (bits x =? bits y) then Crash PyAssert else si_join true x y
+  | x :: _ =>
+    if negb (forallb (fun y => bits y =? bits x) l) then Crash PyAssert else
+    let s := sort_lb l in
+    do cands <- mapM (fun i => join_fold (skipn i s ++ firstn i s)) (seq 0 (length s));
+    match cands with
+    | nil => Crash PyAssert
+    | c :: r => do nc <- n_values c; pick_least c nc r
+    end
+  end.
